@@ -171,6 +171,10 @@ func (app *App) blockBeginner() blockBeginner {
 		gc := app.getGasCalculator()
 		app.Context.deliver = storage.NewState(app.Context.chainstate).WithGas(gc)
 
+		// the stores are shared with the mempool connection, which points them at the check
+		// state: aim all of them at the deliver state before anything reads through them
+		app.Context.Action(&app.header, app.Context.deliver)
+
 		// Apply update at specific height
 		if err := app.applyUpdate(req); err != nil {
 			panic(err)
@@ -376,6 +380,10 @@ func (app *App) txDeliverer() txDeliverer {
 func (app *App) blockEnder() blockEnder {
 	return func(req RequestEndBlock) ResponseEndBlock {
 		defer app.handlePanic()
+
+		// a CheckTx since the last delivered transaction may have left the shared stores aimed
+		// at the check state
+		app.Context.Action(&app.header, app.Context.deliver)
 
 		fee, err := app.Context.feePool.WithState(app.Context.deliver).Get([]byte(fees.POOL_KEY))
 		app.logger.Detail("endblock fee", fee, err)
